@@ -168,26 +168,20 @@ theorem loopBody_agree (hW : Written e enc uo hasRefs ops pos bs fx offs)
     | false =>
       simp only
       have hne := hne2 rfl
-      cases hB : bumpIteration s.cfg.mode s.iteration with
-      | ok it =>
-        simp only [Out.bind_ok]
-        cases overLimit s.cfg.maxIterations it with
-        | true => exact ⟨rfl, fun _ _ h => by cases h⟩
-        | false =>
-          simp only
-          obtain ⟨hag, hpost⟩ := evalOne_agree hW s.cfg hce hcenc m2 hi2 hne
-          rw [hag]
-          cases hS : evaluateOneOperationD parseDec s.cfg m2 with
-          | ok p =>
-            obtain ⟨r, m3⟩ := p
-            simp only [Out.bind_ok]
-            exact afterOp_agree hW k1 k2 hk { s with m := m2, iteration := it, decodes := s.decodes + 1 } hce hcenc r m3 (hpost r m3 hS)
-          | err er => exact ⟨rfl, fun _ _ h => by cases h⟩
-          | panic w => exact ⟨rfl, fun _ _ h => by cases h⟩
-          | diverge => exact ⟨rfl, fun _ _ h => by cases h⟩
-      | err er => exact ⟨rfl, fun _ _ h => by cases h⟩
-      | panic w => exact ⟨rfl, fun _ _ h => by cases h⟩
-      | diverge => exact ⟨rfl, fun _ _ h => by cases h⟩
+      cases overLimit s.cfg.maxIterations s.iteration with
+      | true => exact ⟨rfl, fun _ _ h => by cases h⟩
+      | false =>
+        simp only
+        obtain ⟨hag, hpost⟩ := evalOne_agree hW s.cfg hce hcenc m2 hi2 hne
+        rw [hag]
+        cases hS : evaluateOneOperationD parseDec s.cfg m2 with
+        | ok p =>
+          obtain ⟨r, m3⟩ := p
+          simp only [Out.bind_ok]
+          exact afterOp_agree hW k1 k2 hk { s with m := m2, iteration := saturatingInc s.iteration, decodes := s.decodes + 1 } hce hcenc r m3 (hpost r m3 hS)
+        | err er => exact ⟨rfl, fun _ _ h => by cases h⟩
+        | panic w => exact ⟨rfl, fun _ _ h => by cases h⟩
+        | diverge => exact ⟨rfl, fun _ _ h => by cases h⟩
 
 theorem evaluateInternal_agree (hW : Written e enc uo hasRefs ops pos bs fx offs) :
     ∀ fuel, KAgree e enc uo hasRefs ops pos bs offs (evaluateInternalD parseDec fuel) (evaluateInternalD D2 fuel)
